@@ -110,6 +110,16 @@ def subtler_type(obj):
         return type(obj)
 
 
+def fresh_error(err):
+    """A new exception like err.
+
+    The error of a failed resolution is computed once and remembered; what is
+    raised is a copy, so that one call's traceback and notes do not end up in
+    the error of the next.
+    """
+    return type(err)(*err.args)
+
+
 class NameDatabase:
     def __init__(self, default_name):
         self.default_name = default_name
